@@ -122,6 +122,22 @@ func (d *Data) initFieldTimes(mdb *memdb) {
 	}
 }
 
+// recomputeFieldTime sets a field's time to the newest stamp among the annotations, as
+// initFieldTimes does on load.  Expects the write lock to be held.
+func (mdb *memdb) recomputeFieldTime(rootField string) {
+	newest := ""
+	for _, neuronjson := range mdb.data {
+		if timestamp, isString := neuronjson[rootField+"_time"].(string); isString && timestamp > newest {
+			newest = timestamp
+		}
+	}
+	if newest == "" {
+		delete(mdb.fieldTimes, rootField)
+	} else {
+		mdb.fieldTimes[rootField] = newest
+	}
+}
+
 func (d *Data) loadMemDB(v dvid.VersionID, mdb *memdb) error {
 	ctx := datastore.NewVersionedCtx(d, v)
 	db, err := datastore.GetOrderedKeyValueDB(d)
